@@ -17,6 +17,7 @@ Abstract values (hashable tuples):
   ("sym", dotted)     a resolved module-level function / class / external symbol
   ("ident", av, via)  av passed through a repo function proved to return its first argument
   ("not", av)         logical negation of av
+  ("dict", ((k, av)..)) a dict literal with constant string keys (values captured at construction time)
   ("derived", text)   anything else (canonical text of the expression with parameters substituted)
   ("mixed", (av..))   different values on different branches
 """
@@ -284,6 +285,11 @@ class CtorFlow:
             if t is False:
                 return self._ev(e.orelse, env, module)
             return ("derived", self._text(e, env))
+        if isinstance(e, ast.Dict) and e.keys and all(isinstance(k, ast.Constant) and isinstance(k.value, str) for k in e.keys):
+            return ("dict", tuple((k.value, self._ev(v, env, module)) for k, v in zip(e.keys, e.values)))
+        if isinstance(e, ast.Call) and dotted(e.func) == "dict" and "dict" not in env and not e.args \
+                and e.keywords and all(k.arg is not None for k in e.keywords):
+            return ("dict", tuple((k.arg, self._ev(k.value, env, module)) for k in e.keywords))
         if isinstance(e, ast.UnaryOp) and isinstance(e.op, ast.Not):
             inner = self._ev(e.operand, env, module)
             if inner[0] == "const":
